@@ -389,21 +389,23 @@ def item_bytes(it, first=False):
         k = int(it[1] * len(full))
         if k >= len(full):
             k = len(full) - 1
-        return full[:k], "eof"
+        # ("cut", fraction, "reset"): the peer ends with RST instead of FIN (killed client, close with SO_LINGER 0): reads fail with
+        # ECONNRESET and getpeername() with ENOTCONN afterwards
+        return full[:k], ("reset" if (len(it) > 2 and it[2] == "reset") else "eof")
     if it[0] == "timeout":
         return b"", "timeout"
     return srvkit.render_msg(it[1]), None
 
 
-def run_real(servertype, nconn, evs, hook_raises=(), linger=None, collect=False):
-    rig = srvkit.Rig(servertype, linger=linger)
+def run_real(servertype, nconn, evs, hook_raises=(), linger=None, collect=False, commtimeout=0.0):
+    rig = srvkit.Rig(servertype, linger=linger, commtimeout=commtimeout)
     rig.hook_raises = set(hook_raises)
     try:
         seen = set()
         for c, it in evs:
             data, ending = item_bytes(it, first=c not in seen)
             seen.add(c)
-            rig.deliver(c, data, ending)
+            rig.deliver(c, data, ending, peername_fails=(ending == "reset"))
         obs = [rig.observe(c) if c in rig.started else None for c in range(nconn)]
         for o in obs:
             if o is not None:
